@@ -30,7 +30,9 @@ META = {
     "independent monitor applies str.format to the whole original format string. Also trusted: Python's re (namespace "
     "match is an input bit, generated patterns are literal/prefix so the harness decides it with `in`/startswith), "
     "Python's logging module (root level set to 1 by the harness; level-0 records are dropped by logging itself and "
-    "are not generated), Amaranth's Format parsing at registration, Amaranth semantics and pysim; transactions in "
+    "are not generated; in the `pyquiet` cases the harness configures logging.disable(level) and per-namespace "
+    "Logger.setLevel around the simulation and restores them: this filters which MESSAGES reach the handler - an "
+    "input bit per record, `py=` - while the failure of the simulation is required and compared regardless), Amaranth's Format parsing at registration, Amaranth semantics and pysim; transactions in "
     "generated designs never conflict (run iff requested); on_error is the raising callback used by "
     "TestCaseWithSimulatorBase. Not generated: `c` specifiers, `s` fields holding invalid UTF-8 (the process raises "
     "UnicodeDecodeError there).",
@@ -124,14 +126,35 @@ def chunks_of(fmt: str, fields):
     return out
 
 
-def gen_spec(rng, small: bool = False) -> dict:
+def py_enabled(spec, r) -> bool:
+    """does Python's logging let a record of logger r["logger"] and level r["level"] through under the Python-side
+    configuration of this case (`logging.disable(D)`, per-namespace `Logger.setLevel`; root level is 1)?
+    Python-side filtering decides only whether the MESSAGE is emitted - never whether the simulation fails."""
+    py = spec.get("pylog")
+    if not py:
+        return True
+    if r["level"] <= py["disable"]:
+        return False
+    name = LOGGERS[r["logger"]]
+    levels = {LOGGERS[int(k)]: v for k, v in py["levels"].items()}
+    while name:
+        if levels.get(name):
+            return r["level"] >= levels[name]
+        name = name.rpartition(".")[0]
+    return r["level"] >= 1
+
+
+def gen_spec(rng, small: bool = False, pyquiet: bool = False) -> dict:
     nrec = rng.randint(1, 3) if small else rng.randint(2, 6)
+    forced_err = rng.randrange(nrec) if pyquiet else -1
     tree = gen_tree(rng, nrec)
     fsigs: list = []
     tsigs: list = []
     recs = []
     for i in range(nrec):
         r = rng.random()
+        if i == forced_err:
+            r = rng.choice([0.05, 0.15])
         is_assert = r < 0.1
         is_err = (not is_assert) and r < 0.2
         level = 40 if is_assert else (rng.choice(ERR_LEVELS) if is_err else rng.choice(LEVELS))
@@ -175,7 +198,27 @@ def gen_spec(rng, small: bool = False) -> dict:
         )
     regexp = rng.choice([["all"]] * 6 + [["lit", "core"], ["lit", "core"], ["lit", "lsu"], ["prefix", "core.a"], ["lit", "m"], ["prefix", "mem"], ["prefix", "co"]])
     level = rng.choice([0, 0, 0, 1, 5, 10, 10, 15, 20, 30])
-    return {"tree": tree, "level": level, "regexp": regexp, "fsigs": fsigs, "tsigs": tsigs, "recs": recs}
+    spec = {"tree": tree, "level": level, "regexp": regexp, "fsigs": fsigs, "tsigs": tsigs, "recs": recs}
+    if pyquiet:
+        # Python-side message filtering that silences (at least) the forced ERROR-level record, which the
+        # hardware log level and namespace still select
+        spec["level"] = rng.choice([0, 10, 20, 40])
+        spec["regexp"] = ["all"]
+        er = recs[forced_err]
+        kind = rng.choice(["disable", "logger", "parent", "both"])
+        py = {"disable": 0, "levels": {}}
+        if kind in ("disable", "both"):
+            py["disable"] = rng.choice([lv for lv in (40, 45, 50) if lv >= er["level"]])
+        if kind in ("logger", "both"):
+            py["levels"][str(er["logger"])] = rng.choice([lv for lv in (45, 50, 60) if lv > er["level"]] or [60])
+        if kind == "parent":
+            er["logger"] = rng.choice([0, 1])
+            py["levels"]["3"] = 60  # logger "core" is the parent of "core.alu" and "core.lsu.q"
+        if rng.random() < 0.5:
+            py["levels"].setdefault(str(rng.randrange(len(LOGGERS))), rng.choice([20, 30, 35]))
+        spec["pylog"] = py
+        spec["perr"] = 0.12
+    return spec
 
 
 def regexp_str(rx) -> str:
@@ -201,6 +244,7 @@ def cfg_line(spec) -> str:
         name = LOGGERS[r["logger"]]
         ch = ";".join(("L" + hx(c[1])) if c[0] == "L" else ("F" + hx(c[1])) for c in chunks_of(r["fmt"], r["fields"])) or "N"
         toks.append(f"r{i}={r['level']}/{int(name_ok(spec['regexp'], name))}/{int(r['top'])}/{int(r['assert'])}/{hx(name)}/{ch}")
+    toks.append("py=" + "".join(str(int(py_enabled(spec, r))) for r in spec["recs"]))
     return " ".join(toks)
 
 
@@ -224,7 +268,7 @@ def s_bytes(v: int) -> bytes:
 def gen_trace(rng, spec, ncycles: int, style: str) -> list[str]:
     tree = spec["tree"]
     pc = {"dense": 0.9, "sparse": 0.3, "mixed": 0.65}[style]
-    perr = {"dense": 0.04, "sparse": 0.01, "mixed": 0.03, }[style]
+    perr = spec.get("perr") or {"dense": 0.04, "sparse": 0.01, "mixed": 0.03}[style]
     err_sigs = {}
     for r in spec["recs"]:
         if r["trig"] is not None and r["level"] >= 40:
@@ -399,6 +443,11 @@ class _Built:
         old_level, old_handlers = root.level, root.handlers[:]
         root.handlers = [cap]
         root.setLevel(1)
+        py = self.spec.get("pylog") or {"disable": 0, "levels": {}}
+        touched = [pylog.getLogger(LOGGERS[int(k)]) for k in py["levels"]]
+        for k, lv in py["levels"].items():
+            pylog.getLogger(LOGGERS[int(k)]).setLevel(lv)
+        pylog.disable(py["disable"])
         exc = None
         self.tl._sim_cycle = 0
         try:
@@ -414,6 +463,9 @@ class _Built:
             exc = e
             self.broken = True
         finally:
+            pylog.disable(pylog.NOTSET)
+            for lg in touched:
+                lg.setLevel(pylog.NOTSET)
             root.handlers = old_handlers
             root.setLevel(old_level)
         return cap.recs, exc, self.tl._sim_cycle
@@ -496,7 +548,8 @@ def monitor(case: Case, out: list[str]):
             uses = {c[2]: c[1] for c in chunks_of(r["fmt"], r["fields"]) if c[0] == "F"}
             for a, v in enumerate(args):
                 pyargs.append(s_bytes(v).decode() if uses.get(a, "").endswith("s") else v)
-            exp.append(f"{i}.{r['level']}.{hx(name)}.{hx(r['fmt'].format(*pyargs))}")
+            if py_enabled(spec, r):  # Python-side filtering drops the message only
+                exp.append(f"{i}.{r['level']}.{hx(name)}.{hx(r['fmt'].format(*pyargs))}")
             if r["level"] >= 40:
                 err = True
                 break
@@ -548,10 +601,15 @@ def gen_cases(ctx: Check) -> list[Case]:
     for spec in directed_specs():
         for style in ("dense", "mixed"):
             cases.append(mk_case(spec, gen_trace(rng, spec, 30, style), "directed"))
-    for k in range(ctx.pick(120, 2500)):
+    for k in range(ctx.pick(95, 2500)):
         spec = gen_spec(rng, small=(k % 5 == 0))
         for style in (("dense", "mixed", "sparse") if ctx.thorough else (rng.choice(["dense", "mixed"]),)):
             cases.append(mk_case(spec, gen_trace(rng, spec, rng.choice([4, 10, 20, 30]), style), "random"))
+    # Python logging configured around the simulation so that it drops messages (per-namespace logger level,
+    # logging.disable): an ERROR-level record / failed assertion must still end the simulation
+    for k in range(ctx.pick(30, 600)):
+        spec = gen_spec(rng, small=(k % 3 == 0), pyquiet=True)
+        cases.append(mk_case(spec, gen_trace(rng, spec, rng.choice([10, 20]), rng.choice(["dense", "mixed"])), "pyquiet"))
     return cases
 
 
@@ -559,8 +617,8 @@ def more_cases(case: Case, rng):
     spec = case.desc["spec"]
     for _ in range(20):
         yield mk_case(spec, gen_trace(rng, spec, 16, rng.choice(["dense", "mixed"])), "search")
-    for _ in range(60):
-        sp = gen_spec(rng, small=True)
+    for k in range(60):
+        sp = gen_spec(rng, small=True, pyquiet=(k % 3 == 0))
         yield mk_case(sp, gen_trace(rng, sp, 12, "dense"), "search")
 
 
@@ -597,7 +655,8 @@ def run(ctx: Check):
         "If/Elif/Else, transaction bodies and method bodies, triggers absent/1-bit/multi-bit, format strings from the "
         "grammar [[fill]align][sign][#][0][width][_][d|x|X|b|o] and [[fill]align][width]s with literal text incl. "
         "{{ }} % and non-ASCII, auto or explicit argument numbering; a minimum level and a namespace pattern; a trace of "
-        "condition/request/trigger/field values); non-trivial = a cycle with >= 2 messages, a record with holding trigger "
+        "condition/request/trigger/field values; in `pyquiet` cases additionally a Python-side logging configuration "
+        "(logging.disable, namespace logger levels) that drops the messages of a forced ERROR-level record); non-trivial = a cycle with >= 2 messages, a record with holding trigger "
         "silenced by its context, and a format chunk present"
     )
     ctx.assumptions.append(
